@@ -1,0 +1,51 @@
+//go:build verif
+
+package main
+
+import (
+	"fmt"
+	"os"
+	"strings"
+	"sync"
+	"time"
+
+	"github.com/BondMachineHQ/BondMachine/pkg/bondgo"
+)
+
+// Verification builds only: the environment selects what the hook does.
+//   BM_VERIF_LOG=<file>            append one line per hook point ("<seq> <point>")
+//   BM_VERIF_DELAY=<point>=<dur>,… sleep at the named points (e.g. assigner-notify=20ms), which
+//                                   forces the interleavings in which that operation comes late
+func init() {
+	logPath := os.Getenv("BM_VERIF_LOG")
+	delaySpec := os.Getenv("BM_VERIF_DELAY")
+	if logPath == "" && delaySpec == "" {
+		return
+	}
+	delays := map[string]time.Duration{}
+	for _, part := range strings.Split(delaySpec, ",") {
+		kv := strings.SplitN(part, "=", 2)
+		if len(kv) == 2 {
+			if d, err := time.ParseDuration(kv[1]); err == nil {
+				delays[kv[0]] = d
+			}
+		}
+	}
+	var mu sync.Mutex
+	var seq int
+	var f *os.File
+	if logPath != "" {
+		f, _ = os.OpenFile(logPath, os.O_CREATE|os.O_WRONLY|os.O_APPEND, 0o644)
+	}
+	bondgo.VerifHook = func(point string) {
+		mu.Lock()
+		seq++
+		if f != nil {
+			fmt.Fprintf(f, "%d %s\n", seq, point)
+		}
+		mu.Unlock()
+		if d, ok := delays[point]; ok {
+			time.Sleep(d)
+		}
+	}
+}
